@@ -267,6 +267,60 @@ def build(tier):
             return NetD(self.name + ".rebuilt", arch=kwargs["arch"])
     NetD.pytype = lambda self, ex, st: NetCls(self.name)
     P.contract(MUT + "mutation", setup=mut_setup, params={}, requires=[], frame_fields=False, ensures=["mut_post(result)"], replay="c02:coherent")
+    # activation mutation: the agent reports "act" exactly when an activation was really changed, every changed network is the one stored
+    # back under its own name, and the optimizers are rebuilt afterwards (value-based algorithms; two network groups)
+    act_log = []
+
+    class NetA:
+        def __init__(self, name, activation):
+            self.name, self.activation = name, activation
+
+        def isinstance(self, ex, st, names):
+            return any(n in ("EvolvableModule", "Module") or n.endswith(".EvolvableModule") for n in names)
+
+        def getattr(self, ex, st, name):
+            if name == "activation":
+                return self.activation
+            raise Undecided(f"network attribute {name}")
+    for caps in ((True, True), (True, False), (False, True), (False, False)):
+        def act_setup(ex, st, fr, caps=caps):
+            act_log.clear()
+            ind = Obj("model.Agent", label="individual")
+            groups = [Obj("agilerl.algorithms.core.registry.NetworkGroup", {"eval": n, "shared": None, "policy": n == "actor"}, label=f"group_{n}") for n in ("actor", "critic")]
+            ind.fields.update(dict(algo="DQN", registry=Obj("agilerl.algorithms.core.registry.MutationRegistry", {"groups": groups}, label="registry"),
+                                   actor=NetA("actor", "ReLU" if caps[0] else None), critic=NetA("critic", "ReLU" if caps[1] else None), mut=None))
+            act_setup.before = (ind.fields["actor"], ind.fields["critic"])
+            slf = Obj(MUT[:-1] if MUT.endswith(".") else MUT, label="self")
+
+            def permute(ex, st, a, k):
+                new = NetA(a[0].name, "Tanh")
+                act_log.append(("permuted", a[0], new))
+                return new
+            slf.fields.update(dict(accelerator=None, to_device=Fn(model=lambda ex, st, a, k: a[0], name="to_device"),
+                                   _permutate_activation=Fn(model=permute, name="_permutate_activation"),
+                                   reinit_opt=Fn(model=lambda ex, st, a, k: act_log.append(("reinit_opt", a[0].fields["actor"], a[0].fields["critic"])), name="reinit_opt")))
+            st.locals.update(dict(self=slf, individual=ind))
+            act_setup.ind = ind
+
+        def act_post(res):
+            ind = act_setup.ind
+            if res is not ind:
+                return z3.BoolVal(False)
+            permuted = [e for e in act_log if e[0] == "permuted"]
+            now = (ind.fields["actor"], ind.fields["critic"])
+            ok = True
+            if permuted:
+                ok = ok and ind.fields["mut"] == "act"                                             # the agent reports what it received
+                ok = ok and all(now[("actor", "critic").index(e[1].name)] is e[2] for e in permuted)    # stored back under its own name
+                ok = ok and bool(act_log) and act_log[-1][0] == "reinit_opt" and act_log[-1][1:] == now  # optimizers rebuilt over the final networks
+            else:
+                ok = ok and ind.fields["mut"] == "None" and now[0] is act_setup.before[0] and now[1] is act_setup.before[1]
+            return z3.BoolVal(bool(ok))
+        tag = "caps-" + "".join("y" if c else "n" for c in caps)
+        P.specns["act_post"] = act_post
+        P.contract(MUT + "activation_mutation", variant=tag, setup=act_setup, params={}, requires=[], frame_fields=False,
+                   ensures=["act_post(result)"], replay="c02:coherent")
+
     # multi-agent layout: the shared/target networks are a LIST rebuilt member by member from the list of (mutated) eval networks
     rebuilt_src = []
 
